@@ -76,10 +76,10 @@ def h_fault(shapes=("chain3",), bss=(1,), maxns=(None,), kinds=("kill", "kill_no
         w.effect_hook = hook
         if kind == "squeue":
             def squeue_policy(w_):  # every retry of the status query fails during one solver-chosen round
-                r = w_.cur.name
+                r = w_.cur.pid  # the process of this round (names repeat, pids do not)
                 if st["squeue_round"] is None and not st["injected"] and in_round(w_):
                     if ex.flag("squeue_fails_in_round_%d" % st["idx"]):
-                        st.update(injected=True, squeue_round=r, rows_before=sorted(w_.result_names(out)), proc=r, seq=w_.seq)
+                        st.update(injected=True, squeue_round=r, rows_before=sorted(w_.result_names(out)), proc=w_.cur.name, seq=w_.seq)
                     st["idx"] += 1
                 return st["squeue_round"] == r and st["squeue_round"] is not None
             w.squeue_policy = squeue_policy
